@@ -826,6 +826,12 @@ func (z *Decimal) FMA(x, y, u *Decimal) *Decimal {
 	}
 	// 0 < |u| <= Inf
 
+	if u.form == inf && x.form != inf && y.form != inf {
+		// x·y is zero or finite (however large: it must not be turned into an
+		// infinity of its own, which would meet u as Inf - Inf): the sum is u
+		return z.Set(u)
+	}
+
 	// avoid trashing z if u == z
 	z0 := z
 	if z == u || alias(z.mant, u.mant) {
